@@ -6,6 +6,7 @@ import (
 	"encoding/json"
 	"fmt"
 	"os"
+	"path/filepath"
 	"strconv"
 	"strings"
 
@@ -48,6 +49,8 @@ type Session struct {
 	Prev     *model.DB   // model state before the current step (for hooks)
 	Resynced bool        // the current step's effect was read back from the database
 	Last     *cs.Outcome // outcome of the last operation
+	Exports  map[string][]cs.Doc // resolved export path -> documents of the source at export time
+	OnClose  []func()
 	Ops      []cs.Op     // as drawn (symbolic ids)
 	Hooks    []Hook
 	// id bookkeeping for clover-generated ids
@@ -73,18 +76,30 @@ func NewSession(property, profile, backend string) (*Session, error) {
 
 // Close releases the database and removes the scratch directory.
 func (s *Session) Close() {
+	for _, f := range s.OnClose {
+		f()
+	}
+	s.OnClose = nil
 	if s.H != nil {
 		done := make(chan struct{})
 		go func() { s.H.Close(); close(done) }()
 		<-done
 		if s.ownDir {
 			os.RemoveAll(s.H.Dir)
+			os.RemoveAll(s.H.Dir + ".files")
 		}
 	}
 }
 
 func (s *Session) Program(f *Fail) *Program {
 	return &Program{Property: s.Property, Profile: s.Profile, Backend: s.Backend, Ops: s.Ops, Fail: f}
+}
+
+// FilesDir is the directory for export/import files of this session.
+func (s *Session) FilesDir() string {
+	d := s.H.Dir + ".files"
+	os.MkdirAll(d, 0o755)
+	return d
 }
 
 // SymId returns the reference to use in a program for a live id.
@@ -105,10 +120,29 @@ func (s *Session) SymDocId(id string) interface{} {
 	return id
 }
 
+// GenId is the id function used by geninsert batches.
+func GenId(i int) string { return fmt.Sprintf("%08x-0000-4000-8000-%012x", i, i) }
+
 func (s *Session) resolve(op *cs.Op) *cs.Op {
 	r := *op
+	if op.Kind == "geninsert" {
+		r.Kind = "insert"
+		r.Docs = op.Gen.Docs(GenId)
+		return &r
+	}
 	if op.Id != nil && op.Id.Sym {
 		r.Id = &cs.IdRef{Lit: s.assigned[[2]int{op.Id.Step, op.Id.Pos}]}
+	}
+	if op.Path != "" && !filepath.IsAbs(op.Path) {
+		r.Path = filepath.Join(s.FilesDir(), op.Path)
+	}
+	if op.Kind == "import" && op.Note == "fromexport" {
+		// the file was written by an earlier ExportCollection: expect the JSON image of the source
+		r.Docs = nil
+		for _, d := range s.Exports[r.Path] {
+			r.Docs = append(r.Docs, cs.JSONImageDoc(d))
+		}
+		return &r
 	}
 	if len(op.Docs) > 0 {
 		r.Docs = make([]cs.Doc, len(op.Docs))
@@ -133,6 +167,9 @@ func (s *Session) Do(op cs.Op) *Fail {
 	s.Ops = append(s.Ops, op)
 	r := s.resolve(&op)
 
+	if r.Kind == "import" && r.Content != "" {
+		os.WriteFile(r.Path, []byte(r.Content), 0o644)
+	}
 	var out *cs.Outcome
 	if r.Kind == "reopen" {
 		out = run.Guard(func(o *cs.Outcome) {
@@ -158,6 +195,18 @@ func (s *Session) Do(op cs.Op) *Fail {
 			}
 		}
 	}
+	if r.Kind == "export" && out.Err == "" {
+		if s.Exports == nil {
+			s.Exports = map[string][]cs.Doc{}
+		}
+		var snap []cs.Doc
+		if c := s.M.Colls[r.Coll]; c != nil {
+			for _, id := range c.Ids() {
+				snap = append(snap, c.Docs[id])
+			}
+		}
+		s.Exports[r.Path] = snap
+	}
 	s.noteFacts(r, out)
 	if r.Kind == "reopen" && out.Err == "" && !run.OnDisk(s.Backend) {
 		// an in-memory database starts empty again
@@ -169,7 +218,7 @@ func (s *Session) Do(op cs.Op) *Fail {
 	s.Prev = s.M.Clone()
 	s.Resynced = false
 	if msg := s.M.Step(r, out); msg != "" {
-		return &Fail{Property: s.Property, Clause: "model:" + r.Kind, Detail: msg + "  [op " + r.String() + "]", Step: stepNo}
+		return &Fail{Property: s.Property, Clause: "model:" + r.Kind, Detail: msg + "  [op " + clip(op.String(), 1500) + "]", Step: stepNo}
 	}
 	if s.M.NeedResync {
 		s.Resynced = true
@@ -239,8 +288,121 @@ func (s *Session) resync(op *cs.Op, stepNo int) *Fail {
 	if out.Err != "" {
 		return &Fail{Property: s.Property, Clause: "resync", Detail: "full scan failed: " + out.Err, Step: stepNo}
 	}
+	if op.Kind == "import" {
+		if msg := importMatches(op.Docs, out.Docs); msg != "" {
+			return &Fail{Property: "C19", Clause: "import-contents", Detail: msg + "  [op " + clip(op.String(), 600) + "]", Step: stepNo}
+		}
+	}
 	s.M.Resync(name, out.Docs)
 	return nil
+}
+
+// jsonEq: equality after JSON typing - numbers numerically, everything else strictly.
+func jsonEq(a, b interface{}) bool {
+	isNum := func(v interface{}) bool {
+		switch v.(type) {
+		case int64, uint64, float64:
+			return true
+		}
+		return false
+	}
+	if isNum(a) && isNum(b) {
+		return model.CmpNum(a, b) == 0
+	}
+	switch x := a.(type) {
+	case []interface{}:
+		y, ok := b.([]interface{})
+		if !ok || len(x) != len(y) {
+			return false
+		}
+		for i := range x {
+			if !jsonEq(x[i], y[i]) {
+				return false
+			}
+		}
+		return true
+	case map[string]interface{}:
+		var y map[string]interface{}
+		switch yy := b.(type) {
+		case map[string]interface{}:
+			y = yy
+		case cs.Doc:
+			y = yy
+		default:
+			return false
+		}
+		if len(x) != len(y) {
+			return false
+		}
+		for k, e := range x {
+			f, ok := y[k]
+			if !ok || !jsonEq(e, f) {
+				return false
+			}
+		}
+		return true
+	case cs.Doc:
+		return jsonEq(map[string]interface{}(x), b)
+	}
+	return cs.StrictEqual(a, b)
+}
+
+// importMatches: the imported collection holds exactly the expected documents (same
+// count, same _ids and field sets, values equal after JSON typing); expected documents
+// without _id may have received any valid id.
+func importMatches(want, got []cs.Doc) string {
+	if len(want) != len(got) {
+		return fmt.Sprintf("imported collection holds %d documents, the file holds %d", len(got), len(want))
+	}
+	byId := map[string]cs.Doc{}
+	var anon []cs.Doc
+	for _, d := range got {
+		id, _ := d["_id"].(string)
+		byId[id] = d
+	}
+	for _, w := range want {
+		id, has := w["_id"].(string)
+		if !has || id == "" {
+			anon = append(anon, w)
+			continue
+		}
+		g, ok := byId[id]
+		if !ok {
+			return fmt.Sprintf("document %q of the file is missing from the imported collection", id)
+		}
+		if !jsonEq(map[string]interface{}(w), map[string]interface{}(g)) {
+			return fmt.Sprintf("document %q: file holds %s, imported %s", id, cs.Show(w), cs.Show(g))
+		}
+		delete(byId, id)
+	}
+	for _, w := range anon {
+		found := ""
+		for id, g := range byId {
+			if !model.ValidId(id) {
+				continue
+			}
+			g2 := cs.CloneDoc(g)
+			delete(g2, "_id")
+			w2 := cs.CloneDoc(w)
+			delete(w2, "_id")
+			if jsonEq(map[string]interface{}(w2), map[string]interface{}(g2)) {
+				found = id
+				break
+			}
+		}
+		if found == "" {
+			return fmt.Sprintf("document without _id %s of the file has no counterpart in the imported collection", cs.Show(w))
+		}
+		delete(byId, found)
+	}
+	return ""
+}
+
+func clip(s string, n int) string {
+	if len(s) > n {
+		return s[:n] + "…"
+	}
+	return s
 }
 
 // Save writes the program as a replay file.
